@@ -239,12 +239,12 @@ def satisfies(host, req):
     return None
 
 
-def impl_match_case(ctx, host, reqvals, reqobjs):
+def impl_match_case(ctx, host, reqvals, reqobjs, alts=None):
     """runs match / union / registry.find on the real code; applies the monitors; returns canonical output"""
     S = _S()
     H = real_host(host)
     each = []
-    for rv, ro in zip(reqvals, reqobjs):
+    for ai, (rv, ro) in enumerate(zip(reqvals, reqobjs)):
         m = ro.match(H)
         each.append(None if m is None else m.score)
         if m is not None:
@@ -252,6 +252,17 @@ def impl_match_case(ctx, host, reqvals, reqobjs):
             if why:
                 ctx.monitor_fail(f"match-unsound:{why}", f"request {rv} matches host {host} although the host lacks {why}",
                                  {"op": "match", "host": host, "req": rv})
+            elif alts is not None:
+                # a conjunction requests what each of its terms requests (GPU terms add up, the rest is the maximum)
+                terms = [val(real_term(t)) for t in alts[ai]]
+                gpus = sorted([g for tv in terms for g in tv["gpus"]], key=lambda g: g["memory"])
+                whole = {"gpus": gpus, "cpu": {"memory": max(tv["cpu"]["memory"] for tv in terms), "cores": max(tv["cpu"]["cores"] for tv in terms)},
+                         "duration": max(tv["duration"] for tv in terms)}
+                why = satisfies(host, whole)
+                if why:
+                    ctx.monitor_fail(f"conjunction-drops-requirement:{why}",
+                                     f"request {alts[ai]} matches host {host} although the host lacks the {why} requested by one of its terms",
+                                     {"kind": "match", "host": host, "alts": [alts[ai]]})
     u = S.RequirementUnion(*reqobjs).match(H)
     union = None
     if u is not None:
@@ -384,7 +395,7 @@ def run_cases(ctx, cases, with_model=True):
             continue
         try:
             if k == "match":
-                out = impl_match_case(ctx, c["host"], vals, objs)
+                out = impl_match_case(ctx, c["host"], vals, objs, c["alts"])
                 nt = len(vals) >= 2 and any(v["gpus"] for v in vals) and len(set(map(str, out["each"]))) > 1
                 ctx.count("match_outcome", "some" if out["union"] else "none")
             elif k == "and":
